@@ -158,6 +158,20 @@ impl Cfg {
             // then switched to the wanted level by one of the setters before any input: the result
             // must behave like a compressor created from the flags of that level
             let fmt = if self.zlib { DataFormat::Zlib } else { DataFormat::Raw };
+            if self.api == "setI" || self.api == "newI" {
+                // DataFormat::ZLibIgnoreChecksum "behaves the same as Zlib for compression"
+                use miniz_oxide::deflate::CompressionLevel as L;
+                let l = match self.level { 0 => L::NoCompression, 1 => L::BestSpeed, 9 => L::BestCompression, 10 => L::UberCompression, _ => L::DefaultLevel };
+                let mut c = if self.api == "newI" {
+                    CompressorOxide::with_format_and_level(DataFormat::ZLibIgnoreChecksum, l)
+                } else {
+                    CompressorOxide::default()
+                };
+                if self.api == "setI" || l as u8 != self.level {
+                    c.set_format_and_level(DataFormat::ZLibIgnoreChecksum, self.level);
+                }
+                return c;
+            }
             let mut c = match self.api {
                 "set0" | "setR" => CompressorOxide::with_params(fmt, 0, CompressionStrategy::Default, 15),
                 "setH" => CompressorOxide::with_params(fmt, 6, CompressionStrategy::HuffmanOnly, 15),
@@ -225,6 +239,27 @@ pub struct Sched {
 }
 
 thread_local! {
+    /// explicit call list for the next stream_comp_case: (input bytes added to the offer, output
+    /// buffer size, flush index) per call; afterwards the stream is finished with large buffers
+    pub static SCRIPT: std::cell::RefCell<Vec<(usize, usize, usize)>> = std::cell::RefCell::new(Vec::new());
+}
+
+/// how many plaintext bytes the crate's own decoder gets out of a stream prefix (harness-side
+/// pre-filter only; the verdict on a flush point comes from the acceptor)
+fn prefix_decodes_to(zlib: bool, z: &[u8], want: usize) -> bool {
+    use miniz_oxide::inflate::core::{decompress, inflate_flags, DecompressorOxide};
+    let mut d = DecompressorOxide::new();
+    let mut out = vec![0u8; want + 1024];
+    let flags = inflate_flags::TINFL_FLAG_USING_NON_WRAPPING_OUTPUT_BUF | inflate_flags::TINFL_FLAG_HAS_MORE_INPUT
+        | if zlib { inflate_flags::TINFL_FLAG_PARSE_ZLIB_HEADER } else { 0 };
+    let r = catch_unwind(AssertUnwindSafe(|| decompress(&mut d, z, &mut out, 0, flags)));
+    match r {
+        Ok((_, _, w)) => w == want,
+        Err(_) => false,
+    }
+}
+
+thread_local! {
     /// probability (percent) per call of changing the compression level mid-stream
     /// (set_compression_level_raw), for the scenarios that exercise it
     pub static RELEVEL_PCT: std::cell::Cell<u32> = std::cell::Cell::new(0);
@@ -281,7 +316,8 @@ pub fn stream_comp_case(
     let cfgj = cfg.json(&c);
     tr.ev(json!({"ev": "input", "p": bytes(input)}));
     tr.ev(json!({"ev": "comp_new", "cfg": cfgj.clone()}));
-    let chunks = gen::chunks(&sch.chunk_pat, input.len(), r);
+    let script: Vec<(usize, usize, usize)> = SCRIPT.with(|s| std::mem::take(&mut *s.borrow_mut()));
+    let chunks = if script.is_empty() { gen::chunks(&sch.chunk_pat, input.len(), r) } else { Vec::new() };
     let mut out_all: Vec<u8> = Vec::new();
     let mut pos = 0usize; // consumed so far
     let mut offered_end = 0usize; // end of the chunk currently on offer
@@ -315,6 +351,22 @@ pub fn stream_comp_case(
         } else {
             0
         };
+        let mut flush_i = flush_i;
+        let mut scripted_out: Option<usize> = None;
+        if !script.is_empty() {
+            if calls <= script.len() {
+                let (add, ol, fi) = script[calls - 1];
+                offered_end = (offered_end + add).min(input.len());
+                flush_i = fi;
+                finishing = fi == 4;
+                scripted_out = Some(ol);
+            } else {
+                offered_end = input.len();
+                finishing = true;
+                flush_i = 4;
+                scripted_out = Some(1 << 20);
+            }
+        }
         let flush = FLUSHES[flush_i].1;
         let rp = RELEVEL_PCT.with(|c| c.get());
         if rp > 0 && r.gen_range(0..100) < rp {
@@ -326,7 +378,7 @@ pub fn stream_comp_case(
             tr.ev(json!({"ev": "note", "what": "set_compression_level_raw", "level": nl, "flags": c.flags()}));
         }
         let chunk = &input[pos..offered_end];
-        let out_len = sch.outs[r.gen_range(0..sch.outs.len())];
+        let out_len = match scripted_out { Some(ol) => ol, None => sch.outs[r.gen_range(0..sch.outs.len())] };
         let res = if sch.callback {
             let mut got: Vec<u8> = Vec::new();
             let rr = catch_unwind(AssertUnwindSafe(|| {
@@ -391,6 +443,9 @@ pub fn stream_comp_case(
         if qualifies {
             if flush_i == 3 {
                 cuts.push(pos);
+            }
+            if flush_i != 7 && !prefix_decodes_to(cfg.zlib && cfgj["flags"].as_i64().unwrap_or(0) & 0x1000 != 0, &out_all, pos) {
+                tr.suspect = true;
             }
             if points < sch.max_points {
                 points += 1;
